@@ -111,6 +111,12 @@ class History:
         self.Lfun, self.posfun = make_field(fd)
         self.N = int(case["N"])
         self.ts = gen.partition(rng, self.t0, self.t0 + self.T, self.N, equal=case.get("equal", True))
+        # reversed interval: the same span integrated from its end to its start (time_start > time_end)
+        self.reversed = bool(case.get("reversed", False)) and fd.get("mode") != "multirate"
+        if self.reversed:
+            self.ts = self.ts[::-1].copy()
+        # memory layout of the arrays handed to the Mineral (same values, different strides)
+        self.layout = case.get("layout", "C")
         # regime delivery: static attribute of the mineral, or through the get_regime(t, x) callback
         # (optionally switching to a second regime half-way through the history)
         self.regime_via = case.get("regime_via", "static")
@@ -165,13 +171,13 @@ class History:
             regime=self.pydrex.core.DeformationRegime(static),
             n_grains=self.n,
             fractions_init=(self.f0 if f0 is None else f0).copy(),
-            orientations_init=(self.A0 if A0 is None else A0).copy(), **kw,
+            orientations_init=relayout((self.A0 if A0 is None else A0), self.layout), **kw,
         )
         return m
 
     def run(self, m, F0=None, Lfun=None, posfun=None, ts=None, params=None, on_update=None, solver_kw=None):
         """Drive mineral ``m`` through the history. Returns final F. Exceptions propagate."""
-        F = (self.F0 if F0 is None else F0).copy()
+        F = relayout((self.F0 if F0 is None else F0), self.layout)
         Lfun = Lfun or self.Lfun
         posfun = posfun or self.posfun
         ts = self.ts if ts is None else ts
@@ -187,10 +193,29 @@ class History:
 
     def strain_upto(self, i):
         """Accumulated strain after update i (0-based), along the driven history."""
-        pts = [self.ts[0]] + [b for b in self.breaks if self.ts[0] < b < self.ts[i + 1]] + [self.ts[i + 1]]
+        lo, hi = min(self.ts[0], self.ts[i + 1]), max(self.ts[0], self.ts[i + 1])
+        pts = [self.ts[0]] + [b for b in self.breaks if lo < b < hi] + [self.ts[i + 1]]
         m = max(8, (32 * (i + 1) if i < 8 else 256) // (len(pts) - 1))
         return sum(refmodels.accumulated_strain(self.Lfun, self.posfun, a, np.nextafter(b, a) if b in self.breaks else b, m=m)
                    for a, b in zip(pts[:-1], pts[1:]))
+
+
+def relayout(a, layout):
+    """Same values, different memory layout: C copy, Fortran-ordered copy, a non-contiguous view of a
+    transposed stack (np.moveaxis), or a read-only C copy."""
+    a = np.asarray(a, dtype=float)
+    if layout == "F":
+        return np.asfortranarray(a)
+    if layout == "moveaxis" and a.ndim == 3:
+        stack = np.ascontiguousarray(np.moveaxis(a, 0, -1))   # (3, 3, n) C-contiguous
+        return np.moveaxis(stack, -1, 0)                      # (n, 3, 3) view, entries of different grains interleaved
+    if layout == "moveaxis" and a.ndim == 2:
+        return np.ascontiguousarray(a.T).T
+    if layout == "readonly":
+        b = a.copy()
+        b.setflags(write=False)
+        return b
+    return a.copy()
 
 
 def random_history_case(rng, **fixed):
@@ -212,6 +237,8 @@ def random_history_case(rng, **fixed):
         # pathlines rarely start at t = 0: offsets up to 1e6 spans (and seconds-scale model times)
         "t0": float(rng.choice([0.0, 0.0, 0.5, -1.3, 1e4, 1e6])),
         "regime_via": str(rng.choice(["static", "callback"], p=[0.6, 0.4])),
+        "layout": str(rng.choice(["C", "F", "moveaxis", "readonly"], p=[0.7, 0.1, 0.1, 0.1])),
+        "reversed": bool(rng.random() < 0.08),
     }
     if mode == "multirate":
         case["L"]["rho"] = float(rng.choice([1e-2, 1e-3, 1e-4]))
